@@ -260,8 +260,9 @@ func bubbleLeaks() []string {
 				break
 			}
 		}
-		if frame == "" && len(lines) > 2 {
-			frame = lines[1]
+		if frame == "" {
+			// no keto frame: synctest / testing infrastructure of the bubble itself
+			continue
 		}
 		st := strings.SplitN(state, ",", 2)[0]
 		out = append(out, st+" in "+frame)
